@@ -1,6 +1,7 @@
 import Oracle.Util
 import Oracle.C01
 import MobiusModel.Transfers
+import MobiusModel.DownloadRoots
 /-! Oracle handlers for C08 (model functions exposed on the line protocol).
 
   Byte strings may be written `hex+z<N>+hex…`: `z<N>` stands for N zero bytes (file contents never
@@ -32,6 +33,19 @@ def fileOfArgs : List String → Option (StoredFile × List String)
 
 def fieldsStr (fs : List Field) : String := " ".intercalate (fs.map fieldStr)
 
+/-- `<root> <filespec>` repeated `n` times. -/
+def rootedFiles : Nat → List String → Option (List (Bytes × StoredFile))
+  | 0, [] => some []
+  | 0, _ => none
+  | n + 1, r :: rest => match fileOfArgs rest with
+    | some (f, rest') => (rootedFiles n rest').map fun l => (hexb r, f) :: l
+    | none => none
+  | _ + 1, [] => none
+
+/-- The store that holds, at the one path in question (`[]`), the listed file under each listed root. -/
+def storeOf (l : List (Bytes × StoredFile)) : DlRoots.Store := fun root path =>
+  if path = [] then (l.find? fun e => e.1 == root).map (·.2) else none
+
 def c08Handlers : List (String × Handler) := [
   -- dlreply <k|-> <preview> <ref> <filespec> → the reply's fields in order
   ("dlreply", fun (a : List String) => match a with
@@ -52,6 +66,24 @@ def c08Handlers : List (String × Handler) := [
         let rl := f.rsrcSize
         s!"len={out.length} hdr={toHex (out.take hl)} data={min rem body.length} trailer={toHex (trailer.take (trailer.length - rl))} rsrc={min rl trailer.length} err={err}"
       | _ => "bad-op"
+    | _ => "bad-op"),
+  -- dlroute <k|-> <preview> <ref> <serverRoot> <acctRoot|-> <n> {<root> <filespec>}*n
+  --   → granted=false | granted=true reply=<root whose file the reply describes> stream=<root whose file the stream carries>
+  ("dlroute", fun (a : List String) => match a with
+    | k :: pv :: _ref :: sr :: ar :: n :: rest => match rootedFiles (num n) rest with
+      | some l =>
+        let st := storeOf l
+        let s : DlRoots.Sess := { serverRoot := hexb sr, acctRoot := if ar = "-" then [] else hexb ar }
+        let rq : DlRequest := { resume := optNum k, preview := pv == "1" }
+        match DlRoots.handleDownload st s [] rq with
+        | none => "granted=false"
+        | some (rep, p) =>
+          let who (pred : StoredFile → Bool) : String := match l.find? (fun e => pred e.2) with
+            | some e => toHex e.1
+            | none => "none"
+          let out := DlRoots.serveTransfer st p
+          s!"granted=true reply={who fun f => downloadReply f rq == rep} stream={who fun f => out == some (downloadStream f rq)}"
+      | none => "bad-op"
     | _ => "bad-op"),
   -- dlsplit <stream hexz> <fileSize> → what the reference client of the theorems obtains (lengths + info fork)
   ("dlsplit", fun (a : List String) => match a with
